@@ -124,6 +124,37 @@ def returning(sk, *xs):
     return True
 
 
+def owned_copy(sk, *xs):
+    """Fiber.copy(preserve_owner=False) / Tensor.fromFiber of a root that already belongs to a tensor: a value-returning operation like any
+    other (concrete box coordinates: the library keys a dict by coordinate here; symbolic values, so all-default sub-fibers are models)"""
+    f, pos = build_box(sk["box"], xs)
+    ids = rank_ids_for(len(sk["box"]))
+    t = Tensor.fromFiber(ids, f)
+    root = t.getRoot()
+    def owners(g):
+        out = [id(g.getOwner())]
+        for p in g.payloads:
+            if isinstance(p, Fiber):
+                out += owners(p)
+        return out
+    b0, o0 = snapshot(t), owners(root)
+    if sk["how"] == "copy":
+        r = root.copy(preserve_owner=False)
+    elif sk["how"] == "copy_owner":
+        r = root.copy()
+    else:
+        r = Tensor.fromFiber(ids, root).getRoot()
+    if snapshot(t) != b0:
+        return fail("operand disturbed")
+    if owners(root) != o0 or any(o == id(None) for o in owners(root)):
+        return fail("a fiber of the operand no longer reports its rank as owner after %s" % sk["how"])
+    if r is root or not disjoint([x for x in objects(root) if isinstance(x, (Fiber, Payload))], [x for x in objects(r) if isinstance(x, (Fiber, Payload))]):
+        return fail("the copy shares a fiber or payload box with the operand")
+    if raw(r) != raw(root):
+        return fail("the copy differs from the operand")
+    return mirror(t)
+
+
 def fiber_ops(sk, *xs):
     """fiber-level value-returning operations"""
     op = sk["op"]
@@ -272,6 +303,9 @@ def obligations(tier):
             ps = names("x", tree_params(tree))
             pre, _, cn = tree_pre(tree, ps)
             obs.append(Ob("ret/%s/%s%s" % (_nm(tree), name, _nm(opt)), "returning", dict(tree=tree, xf=name, opt=opt, depth=3, S=S), ps + ["w"], pre + bound_pre(cn, 0, S)))
+    for how in ("copy", "copy_owner", "fromFiber"):
+        for box in ([2, 2], [1, 2, 2]):
+            obs.append(Ob("owned-copy/%s/box%s" % (how, "x".join(map(str, box))), "owned_copy", dict(box=box, how=how), names("v", box_size(box)), []))
     for op in ("add", "mul", "adds", "muls", "deepcopy", "copy", "nonEmpty", "fromLazy", "getitem_slice"):
         for t1, t2 in ([(2, 1), (1, 2)] if op in ("add", "mul", "fromLazy") else [(2, 0)]):
             ps = names("x", tree_params(t1)) + names("y", tree_params(t2))
